@@ -37,10 +37,12 @@ def correspond(ctx):
   for p in res['problems'][:5]:
     ctx.broken('instrumentation:K1', json.dumps(p, default=repr)[:800])
   hard = K.B_ACCEPT | K.B_STORED | K.B_STATE
+  broken_kinds = set()
   for meta, code in zip(res['metas'], res['codes']):
     ctx.count(('trace', json.dumps(meta['bundle'], default=repr)), nontrivial=meta['n_events'] > 0,
               kind='pending-structure' if meta['pending'] else ('calc' if 'calc' in meta['kinds'] else 'doc-only'))
     if code & hard:
+      broken_kinds.update(meta['kinds'])
       bits = [n for b, n in ((1, 'model rejects an event'), (4, 'final stored list differs'), (16, 'final tables differ'))
               if code & b]
       ctx.broken('correspondence:K1 model vs engine trace (%s)' % ', '.join(bits),
@@ -54,6 +56,10 @@ def correspond(ctx):
         ctx.broken('correspondence:model redo replay fails on data cells where the engine redo succeeds',
                    json.dumps({'history': meta['history'], 'bundle': meta['bundle']}, default=repr)[:1500])
       ctx.bump('model-redo-replay-fails')
+  if broken_kinds:
+    # the tie broke: look for a concrete failing input around the kinds of doc actions of the disagreeing bundles
+    for kind, what, rep in K.focused_search(broken_kinds, PROP):
+      ctx.violation(kind, what, rep)
   for s in res['samples'][:3]:
     ctx.samples.append(s)
 
